@@ -235,7 +235,7 @@ def finish(ctx: Ctx, level=None) -> int:
 
     replay_paths = []
     if new_viol:
-        rdir = os.path.join(VERIF_ROOT, "replay", prop)
+        rdir = os.path.join(os.environ.get("HITEN_REPLAY_DIR") or os.path.join(VERIF_ROOT, "replay"), prop)
         os.makedirs(rdir, exist_ok=True)
         seen = set()
         for v in new_viol:
@@ -277,7 +277,8 @@ def finish(ctx: Ctx, level=None) -> int:
         "violations": int(sum(n for (c, m), n in ctx.vcount.items()
                               if not (m and (prop, m) in known and known[(prop, m)].get("status") == "known"))),
     }
-    edir = os.path.join(VERIF_ROOT, "evidence")
+    # runs against a scratch copy of the repository (HITEN_SRC) must not overwrite the evidence of the real tree
+    edir = os.environ.get("HITEN_EVIDENCE_DIR") or os.path.join(VERIF_ROOT, "evidence")
     os.makedirs(edir, exist_ok=True)
     with open(os.path.join(edir, f"{prop}.json"), "w") as f:
         json.dump(ev, f, indent=1, sort_keys=True)
@@ -301,7 +302,10 @@ def finish(ctx: Ctx, level=None) -> int:
     if n_eval == 0 or not ctx.evals:
         print(f"INCONCLUSIVE property={prop} reason=monitor observed nothing")
         return 2
-    print(f"HELD property={prop} on everything observed")
+    if known_hit:
+        print(f"HELD property={prop} on everything observed apart from the known finding(s) listed above")
+    else:
+        print(f"HELD property={prop} on everything observed")
     return 0
 
 
